@@ -145,6 +145,7 @@ class Ctx:
         os.makedirs(BUILD, exist_ok=True)
         os.makedirs(os.path.join(VERIF, "replays"), exist_ok=True)
         os.makedirs(os.path.join(VERIF, "evidence"), exist_ok=True)
+        self.extra_dirs = []     # further coq/ directories this property's files Require
         self.known = self._load_known()
 
     # ------------------------------------------------------------ known findings
@@ -185,12 +186,14 @@ class Ctx:
         return f
 
     def coq_make(self, targets, timeout=1500):
+        """build targets with a per-property Makefile (Common + this property's directories) under the tree lock"""
         lk = self._lock()
         try:
-            rc, out = sh(["sh", os.path.join(COQ, "mk_coqproject.sh")], cwd=COQ, timeout=120)
+            dirs = [self.pid] + [d for d in self.extra_dirs if d != self.pid]
+            rc, out = sh(["sh", os.path.join(COQ, "mk_coqproject.sh")] + dirs, cwd=COQ, timeout=120)
             if rc != 0:
                 return rc, out
-            return sh(["make", "-j16"] + list(targets), cwd=COQ, timeout=timeout)
+            return sh(["make", "-f", "Makefile." + self.pid, "-j16"] + list(targets), cwd=COQ, timeout=timeout)
         finally:
             lk.close()
 
@@ -220,6 +223,9 @@ class Ctx:
     def coq_props(self, extra_dirs=(), props_files=None):
         """(Re)build Cxx/Props.vo from scratch and read the kernel's verdict per theorem."""
         pid = self.pid
+        for d in extra_dirs:
+            if d not in self.extra_dirs:
+                self.extra_dirs.append(d)
         props_files = props_files or ["%s/Props.v" % pid]
         theorems = []
         for pf in props_files:
